@@ -294,11 +294,23 @@ Definition escape_trigraph_safe (chain : list (N * str)) : bool :=
 (* a side whose messages interpolate the path must escape it (a side without messages has nothing to escape) *)
 Definition path_escape_ok (sd : side) : bool :=
   negb (str_in [60; 101; 115; 99; 97; 112; 101; 100; 45; 112; 97; 116; 104; 62] (sd_msg_exprs sd)) || escape_quote_safe (sd_path_escape sd).
+(* the only accepted chain: backslash, double quote, question mark, in this order (fixes b33cf26 + f2f61d1) *)
+Definition chain_bq : list (N * str) := [(92, [92; 92]); (34, [92; 34])].
+Definition chain_bqq : list (N * str) := chain_bq ++ [(63, [92; 63])].
+Fixpoint chain_eqb (a b : list (N * str)) : bool :=
+  match a, b with
+  | [], [] => true
+  | (c, r) :: a', (d, t) :: b' => (c =? d) && str_eqb r t && chain_eqb a' b'
+  | _, _ => false
+  end.
+Definition path_chain_expected (sd : side) : bool :=
+  negb (str_in [60; 101; 115; 99; 97; 112; 101; 100; 45; 112; 97; 116; 104; 62] (sd_msg_exprs sd)) || chain_eqb (sd_path_escape sd) chain_bqq.
 Definition path_trigraph_ok (sd : side) : bool :=
   negb (str_in [60; 101; 115; 99; 97; 112; 101; 100; 45; 112; 97; 116; 104; 62] (sd_msg_exprs sd)) || escape_trigraph_safe (sd_path_escape sd).
 
 Definition sides_agree (sup typ : side) : bool :=
-  side_live typ && side_live sup && msg_literal_safe typ && msg_literal_safe sup && path_escape_ok typ && path_escape_ok sup &&
+  side_live typ && side_live sup && msg_literal_safe typ && msg_literal_safe sup && path_escape_ok typ && path_escape_ok sup && path_trigraph_ok typ && path_trigraph_ok sup &&
+  path_chain_expected typ && path_chain_expected sup &&
   str_eqb (sd_iter typ) iter_expr && str_eqb (sd_value typ) sav_expr &&
   str_eqb (sd_iter sup) (sd_iter typ) && str_eqb (sd_name sup) (sd_name typ) && str_eqb (sd_value sup) (sd_value typ)
   && match sd_skip sup, sd_skip typ with [], [] => true | _, _ => false end.
